@@ -33,7 +33,7 @@ RULE = ('L1: random outcomes (return / 10 Exception classes / 3 BaseException cl
         'incl. lone surrogates) in random order and chunking, VtFaulty raising in inFilter/outFilter/__call__. Non-trivial = at least one raise/drop/'
         'malformed/invalid tag; distinct = distinct input.')
 
-EXC = {'ValueError': ValueError, 'KeyError': KeyError, 'AssertionError': AssertionError, 'IndexError': IndexError,
+EXC = {'SystemError': SystemError, 'ArithmeticError': ZeroDivisionError, 'UnicodeError': UnicodeError, 'BufferError': BufferError, 'ValueError': ValueError, 'KeyError': KeyError, 'AssertionError': AssertionError, 'IndexError': IndexError,
        'RuntimeError': RuntimeError, 'TypeError': TypeError, 'MemoryError': MemoryError, 'RecursionError': RecursionError,
        'StopIteration': StopIteration, 'OSError': OSError}
 import asyncio
@@ -423,10 +423,12 @@ class Rig3(c11.Rig):
                  plugin_dirs=[os.path.join(VERIF, 'harness', 'plugins')])
         c11.Rig.__init__(self)
         # production formats every log record (Logger._log runs utils.str.format on msg/args whatever
-        # the handler levels): let the real path run — records go to the scratch log file at INFO
+        # the handler levels): let the real path run — records of level WARNING and above are really formatted and written to the scratch log file
         import logging
         logging.disable(logging.NOTSET)
-        self.conf.supybot.log.level.setValue('INFO')
+        self.conf.supybot.log.level.set('WARNING')    # set(), not setValue(): it is what moves the file handler's level
+        from supybot import log as _log
+        assert _log._handler.level <= logging.WARNING, 'the file handler would not format records'
         from VtFaulty.plugin import ctl
         self.ctl = ctl
         self.socks = []
@@ -575,6 +577,9 @@ def gen_hostile_line(r):
 
 FAULT_MODES = [None, None, ('call', 'xValueError'), ('inFilter', 'xKeyError'), ('outFilter', 'xRuntimeError'), ('inFilter', 'drop'),
                ('call', 'xAssertionError'), ('outFilter', 'xTypeError'), ('inFilter', 'xMemoryError'),
+               # Exception subclasses that do not look like ordinary errors (logging them must not re-raise them)
+               ('call', 'xMemoryError'), ('outFilter', 'xMemoryError'), ('call', 'xRecursionError'), ('inFilter', 'xRecursionError'), ('outFilter', 'xStopIteration'),
+               ('call', 'xStopIteration'), ('inFilter', 'xSystemError'), ('call', 'xSystemError'), ('outFilter', 'xOSError'), ('call', 'xUnicodeError'),
                # not subclasses of Exception: Irc.feedMsg's bare excepts around inFilter / the callbacks must stop them
                ('call', 'bGeneratorExit'), ('inFilter', 'bCancelledError'), ('call', 'bCancelledError'), ('inFilter', 'bGeneratorExit')]
 
@@ -768,7 +773,7 @@ def run(ctx):
     rig = Rig3()
     scale = 10 if ctx.thorough else 1
     cc, cml, cspans = corpus_cases(rig)
-    groups, (c3, ml, spans) = explore(rig, 'c07', 4000 * scale, 3000 * scale, 3000 * scale)
+    groups, (c3, ml, spans) = explore(rig, 'c07', 3000 * scale, 2000 * scale, 1200 * scale)
     cases = list(cc)
     if build.driver_ok:
         for cs, ls, canon in groups:
